@@ -246,6 +246,14 @@ def c10_root_oracle(rng):
             rules, value = {'type': 'list', 'items': [rules]}, [value]
     schema = {'top': rules, 'r': {}}
     doc = {'top': value}
+    cfg = {}
+    via = rng.choice(['field', 'field', 'unknown-field', 'unknown-in-sub-document'])
+    if via == 'unknown-field':
+        # the same rules as the rule set for UNKNOWN fields of the outermost document
+        schema, cfg = {'r': {}}, {'allow_unknown': rules}
+    elif via == 'unknown-in-sub-document':
+        schema = {'wrap': {'type': 'dict', 'schema': {}, 'allow_unknown': rules}, 'r': {}}
+        doc = {'wrap': {'top': value}}
     satisfied = False
     if present:
         doc['r'] = rng.choice([1, {'q': 1}, 2])
@@ -256,12 +264,12 @@ def c10_root_oracle(rng):
         else:
             satisfied = isinstance(doc['r'], dict) and 'q' in doc['r']
     # decoys: a field named r / q inside the sub-documents must not be consulted
-    v = cerberus.Validator(schema)
-    ok = v.validate(doc, normalize=False)
+    v = cerberus.Validator(schema, **cfg)
+    ok = v.validate(doc, normalize=rng.random() < 0.3)
     if ok != satisfied:
-        return {"schema": common.jval(schema), "document": common.jval(doc)}, \
-            "root-relative dependency %r: verdict %r, expected %r" % (dep, ok, satisfied)
-    return {"schema": common.jval(schema), "document": common.jval(doc)}, None
+        return {"schema": common.jval(schema), "document": common.jval(doc), "config": common.jval(cfg)}, \
+            "root-relative dependency %r (reached through %s): verdict %r, expected %r" % (dep, via, ok, satisfied)
+    return {"schema": common.jval(schema), "document": common.jval(doc), "config": common.jval(cfg)}, None
 
 
 # ------------------------------------------------------------------------- C12
